@@ -324,3 +324,67 @@ Definition check_case2 (k : cfg * list sstep2 * (list obs * bool * list exec)) :
   let '(c, l, (os, fin, xs)) := k in
   let '(os', s) := run_steps2 c (init c) l in
   list_eqb obs_eqb os os' && eqb fin (mon_done s) && list_eqb exec_eqb xs (rev (execs s)).
+
+(* ---- an explicit model of the producers: a producer writes only while it is alive; the producers-finished
+   notification is delivered when the last living producer finishes (reactivex.merge of the producers'
+   notifyFinished completes when all of them have completed: ComponentState.stageIn) *)
+Inductive pevent :=
+| PWrite (i : nat)    (* producer i is asked to write output now: only a living producer does *)
+| PFinish (i : nat)   (* producer i finishes *)
+| PEnv (e : event).   (* everything that is not the producers' doing: the clock, polls, the timer, kills *)
+
+Fixpoint set_b (i : nat) (v : bool) (l : list bool) {struct l} : list bool :=
+  match l, i with
+  | [], _ => []
+  | _ :: r, O => v :: r
+  | x :: r, S k => x :: set_b k v r
+  end.
+Definition is_alive (al : list bool) (i : nat) : bool := nth i al false.
+Definition all_dead (al : list bool) : bool := forallb negb al.
+
+(* what the observer's engine sees of a history of its producers *)
+Fixpoint compile (al : list bool) (pes : list pevent) : list event :=
+  match pes with
+  | [] => []
+  | PWrite i :: r => if is_alive al i then Out i :: compile al r else compile al r
+  | PFinish i :: r =>
+      if is_alive al i then
+        let al' := set_b i false al in
+        if all_dead al' then Notify :: compile al' r else compile al' r
+      else compile al r
+  | PEnv e :: r => e :: compile al r
+  end.
+
+(* ComponentState.stageIn subscribes to the producers that are alive then; with none it notifies at once *)
+Definition ptrace_from (al : list bool) (pes : list pevent) : list event :=
+  if all_dead al then Notify :: compile al pes else compile al pes.
+Definition ptrace (c : cfg) (pes : list pevent) : list event := ptrace_from (map (fun _ => true) (c_prods c)) pes.
+
+(* the producers still alive after a history *)
+Fixpoint alive_after (al : list bool) (pes : list pevent) : list bool :=
+  match pes with
+  | [] => al
+  | PFinish i :: r => alive_after (if is_alive al i then set_b i false al else al) r
+  | _ :: r => alive_after al r
+  end.
+
+(* scripts at the level of the producers: the clock advance of the sleep, what the producers and the rest of the
+   environment do during it, the outcome available to the poll that follows; the correspondence runs these
+   through the REAL ComponentState.stageIn subscription (reactivex.merge of the producers' notifyFinished) *)
+Definition sstep3 := (Z * list pevent * outcome)%type.
+
+Fixpoint run_steps3 (c : cfg) (al : list bool) (s : st) (l : list sstep3) : list obs * st :=
+  match l with
+  | [] => ([], s)
+  | (dt, pes, o) :: r =>
+      let s1 := poll c (run c (step c s (Adv dt)) (compile al pes)) o in
+      let '(os, s2) := run_steps3 c (alive_after al pes) s1 r in (observe s1 :: os, s2)
+  end.
+
+(* case = (cfg, producers alive at stageIn, script, (observations, monitor returned, launches oldest first)) *)
+Definition check_case3 (k : cfg * list bool * list sstep3 * (list obs * bool * list exec)) : bool :=
+  let '(c, al, l, (os, fin, xs)) := k in
+  let s0 := if all_dead al then step c (init c) Notify else init c in
+  let '(os', s) := run_steps3 c al s0 l in
+  list_eqb obs_eqb os os' && eqb fin (mon_done s) && list_eqb exec_eqb xs (rev (execs s)).
+
